@@ -55,6 +55,12 @@ func main() {
 		modeCtor(os.Args[2:])
 	case "conn":
 		modeConn(os.Args[2:])
+	case "tlsgate":
+		modeTLSGate(os.Args[2:])
+	case "churn":
+		modeChurn(os.Args[2:])
+	case "life":
+		modeLife(os.Args[2:])
 	default:
 		fmt.Fprintln(os.Stderr, "unknown mode", os.Args[1])
 		os.Exit(2)
